@@ -37,6 +37,70 @@ def scanSeq (t : Abi.Ty) (capx : Nat) : Abi.St → List String → List String
       | .ok s' => ("ok " ++ showRows b s'.rows) :: scanSeq t capx s' rest
       | r => r.tag :: scanSeq t capx s rest
 
+/-! ### row builder ops -/
+
+def parseFilter (s : String) : Row.Filter :=
+  if s == "-" then {}
+  else
+    let parts := s.splitOn "|"
+    let op := match parts with | o :: _ => (if o == "~" then "" else o) | [] => ""
+    let rest := parts.drop 1
+    let refp := rest.find? (·.startsWith "@")
+    let args := rest.filter fun a => !a.startsWith "@"
+    match refp with
+    | some r =>
+      match ((r.drop 1).toString.splitOn ".") with
+      | [t, c, i] => { op := op, args := args, refTable := (if t == "~" then "" else t), refCol := c, refInteg := i }
+      | _ => { op := op, args := args }
+    | none => { op := op, args := args }
+
+def splitList (s : String) (sep : String) : List String := if s == "_" then [] else s.splitOn sep
+
+def parseDVal (s : String) : Row.DVal :=
+  match s.splitOn ":" with
+  | ["x", h] => .bytes ((hexArg (if h == "" then "-" else h)).getD [])
+  | ["s", h] => .str ((hexArg (if h == "" then "-" else h)).getD [])
+  | ["n", d] => .u64 (d.toNat?.getD 0)
+  | ["u", d] => .u256 (d.toNat?.getD 0)
+  | ["y", d] => .byte (d.toNat?.getD 0)
+  | _ => .null
+
+def showDVal : Row.DVal → String
+  | .bytes b => "x:" ++ hexOfBytes b
+  | .str b => "s:" ++ hexOfBytes b
+  | .u64 n => s!"n:{n}"
+  | .u256 n => s!"n:{n}"
+  | .neg n => s!"n:{n}"
+  | .bool b => s!"b:{b}"
+  | .byte n => s!"n:{n}"
+  | .int n => s!"n:{n}"
+  | .null => "nil"
+
+def showDRows (rs : List (List Row.DVal)) : String :=
+  if rs.isEmpty then "ok" else "ok " ++ ";".intercalate (rs.map fun r => ",".intercalate (r.map showDVal))
+
+def parseDecl (agg desc ifl bsp sh : String) : Option Row.Decl :=
+  match Abi.parseDesc desc with
+  | none => none
+  | some is =>
+    some { inputs := is, inputFilters := (splitList ifl ";").map parseFilter,
+           block := (splitList bsp ";").map (fun e => match e.splitOn "=" with
+             | [n, f] => (n, parseFilter f)
+             | _ => (e, {})),
+           agg := (if agg == "-" then "" else agg), sighash := (hexArg sh).getD [] }
+
+def parseRefs (s : String) : Row.Refs :=
+  (splitList s ";").filterMap fun e => match e.splitOn "=" with
+    | [tc, vs] => match tc.splitOn "." with
+      | [t, c] => some (t, c, (splitList vs ",").map fun h => (hexArg h).getD [])
+      | _ => none
+    | _ => none
+
+def parseCtx (s : String) : Row.Ctx :=
+  (splitList s ";").filterMap fun e => match e.splitOn "=" with
+    | [n, v] => some (n, parseDVal v)
+    | _ => none
+
 def step (line : String) : String :=
   match (line.splitOn " ").filter (· ≠ "") with
   | ["abitype", desc] =>
@@ -73,6 +137,34 @@ def step (line : String) : String :=
         if k ≤ bound then "ok" else s!"viol rows={k} exceed bound={bound} for {n} bytes"
       | r => r.tag
     | _, _, _ => "bad-op"
+  | ["plog", agg, desc, ifl, bsp, sh, refs, topics, data, ctx] =>
+    match parseDecl agg desc ifl bsp sh, hexArg data with
+    | some d, some dat =>
+      let lg : Row.Log := { topics := (splitList topics ",").map (fun h => (hexArg h).getD []), data := dat }
+      let scanRows : Res (List (List (Option (List Nat)))) :=
+        match Abi.eventAbiType d.inputs with
+        | .ok t =>
+          let b : Abi.Buf := { data := dat, cap := dat.length }
+          (match Abi.resultScan b t (Abi.newResult t) with
+           | .ok s' => .ok (s'.rows.map fun row => row.map fun c => c.map fun (lo, hi) => (b.data.take hi).drop lo)
+           | .err => .err | .panic => .panic | .overread => .overread)
+        | .err => .err | .panic => .panic | .overread => .overread
+      match Row.processLog (parseRefs refs) d (parseCtx ctx) lg scanRows with
+      | .ok rows => showDRows rows
+      | r => r.tag
+    | _, _ => "bad-op"
+  | ["ptx", agg, bsp, refs, ctx] =>
+    match parseDecl agg "0" "_" bsp "-" with
+    | some d => match Row.processTx (parseRefs refs) d (parseCtx ctx) with
+      | .ok rows => showDRows rows
+      | r => r.tag
+    | none => "bad-op"
+  | ["pushaddrs", agg, desc, ifl, bsp] =>
+    match parseDecl agg desc ifl bsp "-" with
+    | some d =>
+      let as := Row.pushedAddrs d
+      if as.isEmpty then "-" else ",".intercalate (as.map hexOfBytes)
+    | none => "bad-op"
   | ["planflags", fields] =>
     let fs := if fields == "-" then [] else fields.splitOn ","
     let flags := Plan.plan fs
